@@ -14,7 +14,7 @@
 #include "crypto_core/ed25519/ref10/ed25519_ref10.c"
 #include "crypto_sign/ed25519/ref10/open.c"
 
-struct vin_t { unsigned char sig[64], pk[32]; unsigned long long mlen, smlen; int prehashed, r_fbn, r_fb, so[3], vret, m_null, lenp_null; unsigned char h[64], mold; size_t gk; };
+struct vin_t { unsigned char sig[64], pk[32]; unsigned long long mlen, smlen; int prehashed, r_fbn, r_fb, so[3], vret, m_null, lenp_null; unsigned char h[64], mold; size_t gk; unsigned char ov[2 * 96 + 80 + 64 + 8]; };
 struct vin_t nondet_vin(void);
 struct vin_t vin;
 VMISUSE_DEFINE
@@ -98,5 +98,27 @@ void hf_open(void)
     }
     VASSERT("reported length: smlen-64 on success, 0 on failure", vin.lenp_null || mlen_out == (r == 0 ? ml : 0));
     VREACH("hf_open");
+}
+/* ---- crypto_sign_ed25519_open with the output overlapping the signed message (C13): m and sm inside one object at a
+ * constant relative offset VDELTA = m - sm; bounded: messages <= 80 bytes. ---- */
+#ifndef VDELTA
+# define VDELTA 0
+#endif
+#define VOV 96
+void hb_open_overlap(void)
+{
+    VIN_GET();
+    VASSUME(vin.smlen >= 64 && vin.smlen <= 64 + 80);
+    static unsigned char big[2 * VOV + 80 + 64 + 8]; unsigned char *sm = big + VOV, *m = big + VOV + (VDELTA), orig = 0; unsigned long long ml = vin.smlen - 64, mlen_out = 99; int r; size_t g = vin.gk % 80;
+    memcpy(big, vin.ov, sizeof big);                                         /* arbitrary buffer contents */
+#ifndef VNATIVE
+    v_gidx = g;
+#endif
+    if (g < ml) orig = sm[64 + g];
+    r = crypto_sign_ed25519_open(m, &mlen_out, sm, vin.smlen, vin.pk);
+    VASSERT("opened exactly when the signature verifies", (r == 0) == (vin.vret == 0) && mlen_out == (r == 0 ? ml : 0));
+    if (r == 0 && g < ml) VASSERT("the message delivered is the ORIGINAL signed message whatever the overlap (same result as with disjoint buffers)", m[g] == orig);
+    if (r != 0 && g < ml) VASSERT("on failure the output holds zeros", m[g] == 0);
+    VREACH("hb_open_overlap");
 }
 VNATIVE_MAIN(VENTRY)
